@@ -66,6 +66,14 @@ func writeCorpus(dir string) error {
 		Dir: &DirSpec{Dirs: []string{"build.aaaaaaaa.link"}, Symlinks: map[string]string{"build.bbbbbbbb.link": "/nonexistent", "build.cccccccc.link": "build.cccccccc.link"}}})
 	add(&Input{Entry: "verify", Klass: "special-file-link", Note: "F20: the link of the step is a named pipe", File: unsignedLayout(thresholdLayout(1, kp)), Resign: true, KeyName: "ed1",
 		Dir: &DirSpec{Fifos: []string{linkFileName("build", kp.Pub)}}, DeadlineMs: 3000})
+	gl := thresholdLayout(1, kp)
+	gl.Steps[0].Name = "[0123456789]"
+	add(&Input{Entry: "verify", Klass: "hostile-dir/glob-step-name", Note: "step name is a character class longer than the file name it matches", File: unsignedLayout(gl), Resign: true, KeyName: "ed1",
+		Dir: &DirSpec{Files: map[string][]byte{"7." + kp.Pub.KeyID[:8] + ".link": signedFile(mkLink("7", nil, nil), false, kp)}}})
+	gl2 := thresholdLayout(1, kp)
+	gl2.Steps[0].Name = "sub-directory/b"
+	add(&Input{Entry: "thresholds", Klass: "hostile-dir/glob-step-name", Note: "step name with a path separator, link file in the sub-directory", File: unsignedLayout(gl2),
+		Dir: &DirSpec{Files: map[string][]byte{"sub-directory/b." + kp.Pub.KeyID[:8] + ".link": signedFile(mkLink("b", nil, nil), false, kp)}}})
 	for i, in := range items {
 		b, err := json.MarshalIndent(in, "", " ")
 		if err != nil {
